@@ -216,6 +216,26 @@ UnitVec(lon, lat) == << CosAx(lon) * CosAx(lat), SinAx(lon) * CosAx(lat), SinAx(
 (* the angle pair handed to the code: (lon, lat) when latitude = TRUE, (lon, colatitude) otherwise *)
 AnglesArg(lon, lat, latitude) == IF latitude THEN <<lon, lat>> ELSE <<lon, 900 - lat>>
 
+(* ========== 4c. a point against itself and against its antipode (never NaN) ========== *)
+(* gcirc of a point and itself is 0, of a point and its antipode 180 deg.  cap_distance of  *)
+(* a cap of polar angle theta about x is theta - sep(x, point), negated for cm < 0 (the      *)
+(* complement); is_in_cap is "cap_distance >= 0".  For the cap's own centre and for the      *)
+(* antipode of the centre this is exact, wherever the centre is - and a NUMBER: rounding     *)
+(* pushes dot products / chords of such pairs just outside the domain of arccos / arcsin.    *)
+(* cm = 1 - cos(theta) is exact in binary for theta = 60, 90, 120 deg (halves).              *)
+CapThetas10 == {600, 900, 1200}
+CapCmHalves(t) == CASE t = 600 -> 1 [] t = 900 -> 2 [] t = 1200 -> 3
+SelfRels == {"coincident", "antipode", "antipode-negated"}   \* antipode as (RA+180, -Dec); as the negated vector
+SelfSep10(rel) == IF rel = "coincident" THEN 0 ELSE 1800
+CapSelfDist10(t, rel, sgn) == sgn * (t - SelfSep10(rel))
+CapSelfInside(t, rel, sgn) == CapSelfDist10(t, rel, sgn) >= 0
+(* record "self" = a batch of n centres: fn (gcirc | cap_distance), conv (u0 u1 u2 | radec   *)
+(* vector), rel; nnan = results that are NaN; disc = largest distance from the specified      *)
+(* value (nano-degrees); wrong = is_in_cap answers that are not the specified ones            *)
+SelfHolds(r) == /\ r.fn \in {"gcirc", "cap_distance"} /\ r.rel \in SelfRels
+                /\ r.nnan = 0 /\ r.wrong = 0
+                /\ r.disc <= (IF r.fn = "gcirc" /\ r.rel = "coincident" THEN 0 ELSE PosTolNdeg(TRUE))
+
 (* ===================== 5. the laws over records of real calls ======================== *)
 (* --- gcirc: one record = one pair of points called in the three conventions, both       *)
 (* argument orders.  Sequences are indexed 1..3 = units 0, 1, 2.                           *)
